@@ -76,6 +76,7 @@ fn run(routine: &str, rest: &[String]) -> String {
         "byte_formatters" => public::byte_formatters(rest),
         "time_keys" => public::time_keys(rest),
         "time_laws" => public::time_laws(rest),
+        "stale_redraw" => public::stale_redraw(rest),
         "term_not_tty" => public::term_not_tty(rest),
         "spinner_ticks" => public::spinner_ticks(rest),
         "pos_concurrent" => public::pos_concurrent(rest),
